@@ -21,6 +21,18 @@ const KEYS: &[&str] = &[
     "\"a\"", "\"b\"", "\"key\"", "\"näme\"", "mysterious", "nothing", "true", "false", "\"\"",
     "\"zed\"", "\"Q\"", "\"longer key with spaces\"", "right", "null", "\"0\"",
 ];
+/// Keys that collide under truncation, case folding, trimming or
+/// normalisation: whatever order is derived from a lossy view of the key
+/// falls back to hasher order for these.
+const NEAR_KEYS: &[&str] = &[
+    "\"a long dictionary key with a shared prefix, variant A\"",
+    "\"a long dictionary key with a shared prefix, variant B\"",
+    "\"a long dictionary key with a shared prefix, variant C\"",
+    "\"a long dictionary key with a shared prefix, variant D\"",
+    "\"a long dictionary key with a shared prefix\"",
+    "\"Key\"", "\"key\"", "\"KEY\"", "\"key \"", "\" key\"", "\"k\u{e9}y\"", "\"ke\u{301}y\"",
+    "\"1\"", "\"01\"", "\"1.0\"", "\"true\"", "true", "\"null\"", "null", "\"mysterious\"", "mysterious",
+];
 const STR_VALS: &[&str] = &["\"1\"", "\"2\"", "\"x\"", "\"ÿ\"", "\"v v\"", "\"\"", "\"end\""];
 const OTHER_VALS: &[&str] = &["7", "true", "nothing", "mysterious", "3.5", "-2"];
 const ARR: &[&str] = &["Alpha", "Bravo", "Charlie"];
@@ -38,15 +50,47 @@ pub fn gen_dict_program(t: &mut Tape) -> DictProgram {
     let mut nkeys_of = vec![0usize; narr];
     let mut all_str = vec![true; narr];
     for a in 0..narr {
-        let nkeys = 2 + t.draw(5) as usize;
-        let mut used: Vec<usize> = Vec::new();
-        for _ in 0..nkeys {
-            let k = t.draw(KEYS.len() as u32) as usize;
-            if used.contains(&k) {
+        // key family: the plain pool; keys that collide under truncation,
+        // case folding or trimming; or a big dictionary
+        let family = t.weighted(&[6, 2, 1]);
+        let mut keys: Vec<String> = Vec::new();
+        match family {
+            0 => {
+                let nkeys = 2 + t.draw(5) as usize;
+                for _ in 0..nkeys {
+                    let k = KEYS[t.draw(KEYS.len() as u32) as usize].to_string();
+                    if !keys.contains(&k) {
+                        keys.push(k);
+                    }
+                }
+            }
+            1 => {
+                features.push("near-identical keys");
+                let nkeys = 2 + t.draw(5) as usize;
+                for _ in 0..nkeys {
+                    let k = NEAR_KEYS[t.draw(NEAR_KEYS.len() as u32) as usize].to_string();
+                    if !keys.contains(&k) {
+                        keys.push(k);
+                    }
+                }
+            }
+            _ => {
+                features.push("dictionary with more than 16 keys");
+                let nkeys = 17 + t.draw(24) as usize;
+                let stride = 1 + t.draw(6) as usize;
+                for i in 0..nkeys {
+                    keys.push(format!("\"k{:02}\"", (i * stride * 7) % 97));
+                }
+                keys.dedup();
+            }
+        }
+        let mut used: Vec<String> = Vec::new();
+        for key in keys {
+            if used.contains(&key) {
                 continue;
             }
-            used.push(k);
-            let v = if t.chance(1, 5) {
+            used.push(key.clone());
+            let v = if t.chance(1, if family == 2 { 12 } else { 5 }) {
                 all_str[a] = false;
                 if a > 0 && t.chance(1, 2) {
                     features.push("nested dict");
@@ -54,12 +98,14 @@ pub fn gen_dict_program(t: &mut Tape) -> DictProgram {
                 } else {
                     (*t.pick(OTHER_VALS)).to_string()
                 }
+            } else if family == 2 {
+                format!("\"v{}\"", used.len())
             } else {
                 (*t.pick(STR_VALS)).to_string()
             };
             match t.draw(2) {
-                0 => src.push_str(&format!("Let {} at {} be {}\n", ARR[a], KEYS[k], v)),
-                _ => src.push_str(&format!("Put {} into {} at {}\n", v, ARR[a], KEYS[k])),
+                0 => src.push_str(&format!("Let {} at {} be {}\n", ARR[a], key, v)),
+                _ => src.push_str(&format!("Put {} into {} at {}\n", v, ARR[a], key)),
             }
         }
         nkeys_of[a] = used.len();
@@ -78,6 +124,15 @@ pub fn gen_dict_program(t: &mut Tape) -> DictProgram {
     if has_fn {
         src.push_str("Joiner takes Box\nJoin Box with \"-\"\nGive back Box\n\n");
         src.push_str("Keeper takes Box and Extra\nLet Box at \"extra\" be Extra\nJoin Box into Glue with \"+\"\nGive back Glue\n\n");
+    }
+    // deep recursion that ends in a runtime error (or returns): whatever
+    // the interpreter keeps per call is multiplied by the depth
+    let has_dive = t.chance(1, 5);
+    if has_dive {
+        features.push("deep recursion");
+        src.push_str("Put \"doom\" into Doom\n");
+        src.push_str("Dive takes Depth\nIf Depth is 0\nBuild Doom up\n\nPut Depth minus 1 into Deeper\nGive back Dive taking Deeper\n\n");
+        src.push_str("Climb takes Depth\nIf Depth is 0\nGive back \"top\"\n\nPut Depth minus 1 into Deeper\nGive back Climb taking Deeper\n\n");
     }
     let nops = 2 + t.draw(7);
     for _ in 0..nops {
@@ -99,6 +154,7 @@ pub fn gen_dict_program(t: &mut Tape) -> DictProgram {
             1, // 12 lint bait
             1, // 13 join in place, then say
             1, // 14 undefined name (error names a variable)
+            if has_dive { 4 } else { 0 }, // 15 deep recursion
         ];
         match t.weighted(&w) {
             0 => {
@@ -190,6 +246,14 @@ pub fn gen_dict_program(t: &mut Tape) -> DictProgram {
                     features.push("join over >=2 dict entries");
                 }
                 src.push_str(&format!("Put {} into Scratch\nJoin Scratch\nSay Scratch\n", name));
+            }
+            15 => {
+                let depth = 40 + t.draw(160);
+                if t.chance(2, 3) {
+                    src.push_str(&format!("Say Climb taking {}\nSay Dive taking {}\n", depth / 2, depth));
+                } else {
+                    src.push_str(&format!("Say Climb taking {}\n", depth));
+                }
             }
             _ => {
                 features.push("undefined name error");
@@ -594,9 +658,11 @@ impl C10 {
                                 ("observation_b", obs.to_json()),
                                 ("dict_order_probe_b", J::A(probe.iter().map(|p| J::s(p.clone())).collect())),
                             ]),
-                            // the differing bytes may themselves be irreproducible
-                            // (addresses, clocks): identity = scenario + field
-                            log_hash: hash_combine(key, hash_bytes(field.as_bytes())),
+                            // the differing bytes, and even which observation
+                            // differs first, may be irreproducible by nature
+                            // (addresses, clocks, OS-seeded hashers): the
+                            // identity of the violation is the scenario
+                            log_hash: hash_combine(key, 0xD1),
                             tags,
                         });
                         return res;
